@@ -971,7 +971,7 @@ mod v_socket_dhcpv4 {
         if seen {
             assert!(post.phase == REQ && post.retry == pre.retry + 1, "prop:c18_request_counted");
         }
-        kani::cover!(seen && pre.retry >= 128, "REQUEST number 129 or later sent");
+        kani::cover!(seen && pre.retry >= 100, "REQUEST number 101 or later sent");
     }
 
     // ------------------------------------------------------------------ 4. poll_at contract
